@@ -713,19 +713,26 @@ Definition check_time (c : ttable * list top * list (Z * arr)) : Z :=
   else 1.
 
 (* ------------------------------------------------------------------------------------ PosVel / PositionDelta objects *)
-(* Objects that hold other memoised parts (PosVelArray.pos/.vel/.trs2acr, conversions trs <-> kepler without
-   LRU, PositionDelta.enu which depends on ref_pos).  Here only the cache-free meaning is modelled: every read
-   is the (unmodelled) function `pvf` of the *current* contents of the object and of the object it is linked to
-   (`other` of a PosVel, `ref_pos` of a delta).  One switch: c08_refpos_mutation_stale - a delta keeps its
-   converted value until it is assigned to itself (mutating ref_pos does not invalidate it).
+(* Objects that hold other memoised parts (PosVelArray.pos/.vel/.trs2acr, conversions trs <-> kepler,
+   PositionDelta.enu which depends on ref_pos).  The specification is the cache-free meaning: every read is the
+   (unmodelled) function `pvf` of the *current* contents of the object and of the object it is linked to (`other`
+   of a PosVel, `ref_pos` of a delta); raw calls of trs2kepler / kepler2trs return private arrays and leave their
+   argument alone; writing into a result changes nothing.  Two switches:
+     stale_ref  c08_refpos_mutation_stale  a delta keeps its converted value until it is assigned to itself
+     hand       c08_object_cache_handout   every read is memoised in the object (emptied by item assignment to it or
+                                           to the object it is linked to, and by attaching another `other`) and
+                                           p.kepler / p.trs hand out the memo entry itself
    kinds: 3 TrsPosVel, 4 KeplerPosVel, 5 TrsPositionDelta, 6 TrsPosition (used as ref_pos).
    reads: 1 pos, 2 vel, 3 the other system, 4 trs2acr, 5 distance, 6 elevation (5, 6 need `other`), 8 delta.enu *)
-Definition pvobj : Type := (Z * arr * option Z * option arr)%type.    (* kind, contents, linked slot, memo of read 8 *)
+Definition pvobj : Type := (Z * arr * option Z * list (Z * arr))%type.    (* kind, contents, linked slot, memo *)
+Definition pvworld : Type := (list (Z * pvobj) * option Z)%type.          (* objects; slot whose conversion memo the last result is *)
 
 Inductive pvop : Type :=
 | PNew (s : Z) (kind : Z) (a : arr) (link : option Z)
 | PRead (s : Z) (what : Z)
-| PSet (s : Z) (mode : Z) (v : list Z)        (* mode 2: every row := v, otherwise the first row := v *)
+| PRaw (s : Z)                                  (* transformation.trs2kepler(p) / kepler2trs(p) *)
+| PWrite (c : Z)                                (* result[...] = c on the last conversion / raw result *)
+| PSet (s : Z) (mode : Z) (v : list Z)          (* mode 2: every row := v, otherwise the first row := v *)
 | POther (s : Z) (t : option Z).
 
 Fixpoint repeat_rows (v : list Z) (n : nat) : list Z :=
@@ -738,51 +745,103 @@ Definition set_rows (mode : Z) (v : list Z) (a : arr) : arr :=
 Section PVMachine.
   Variable pvf : Z -> list arr -> option arr.
   Variable stale_ref : bool.
+  Variable hand : bool.
 
-  Fixpoint pv_update (s : Z) (f : pvobj -> pvobj) (w : list (Z * pvobj)) : list (Z * pvobj) :=
+  Fixpoint pv_map (f : Z -> pvobj -> pvobj) (w : list (Z * pvobj)) : list (Z * pvobj) :=
     match w with
     | [] => []
-    | (k, o) :: t => if k =? s then (k, f o) :: t else (k, o) :: pv_update s f t
+    | (k, o) :: t => (k, f k o) :: pv_map f t
     end.
 
-  Definition pvstep (w : list (Z * pvobj)) (o : pvop) : list (Z * pvobj) * option (arr * Z) :=
+  Definition pv_update (s : Z) (f : pvobj -> pvobj) (w : list (Z * pvobj)) : list (Z * pvobj) :=
+    pv_map (fun k o => if k =? s then f o else o) w.
+
+  Definition memo_put (s : Z) (what : Z) (v : arr) (w : list (Z * pvobj)) : list (Z * pvobj) :=
+    pv_update s (fun x => let '(k, a, l, m) := x in (k, a, l, (what, v) :: m)) w.
+
+  Definition use_memo (what : Z) : bool := hand || (stale_ref && (what =? 8)).
+
+  (* item assignment to s: its own memo goes, and the memo of everything that has s as other / ref_pos *)
+  Definition pv_assign (s : Z) (mode : Z) (v : list Z) (w : list (Z * pvobj)) : list (Z * pvobj) :=
+    pv_map (fun k o =>
+              let '(kd, a, l, m) := o in
+              if k =? s then (kd, set_rows mode v a, l, [])
+              else match l with
+                   | Some t => if (t =? s) && negb (stale_ref && (kd =? 5)) then (kd, a, l, []) else o
+                   | None => o
+                   end) w.
+
+  Definition pvstep (wr : pvworld) (o : pvop) : pvworld * option (arr * Z) :=
+    let (w, r) := wr in
     match o with
-    | PNew s kind a link => ((s, (kind, a, link, None)) :: w, Some (([], []), 0))
-    | PSet s mode v =>
-        (pv_update s (fun x => let '(k, a, l, _) := x in (k, set_rows mode v a, l, None)) w, Some (([], []), 0))
-    | POther s t => (pv_update s (fun x => let '(k, a, _, m) := x in (k, a, t, m)) w, Some (([], []), 0))
+    | PNew s kind a link => (((s, (kind, a, link, [])) :: w, r), Some (([], []), 0))
+    | PSet s mode v => ((pv_assign s mode v w, None), Some (([], []), 0))
+    | POther s t => ((pv_update s (fun x => let '(k, a, _, _) := x in (k, a, t, [])) w, None), Some (([], []), 0))
+    | PWrite c =>
+        match r with
+        | Some s =>
+            if hand then
+              ((pv_update s (fun x => let '(k, a, l, m) := x in
+                                      (k, a, l, map (fun e => if fst e =? 3 then (3, fill (snd e) c) else e) m)) w, r),
+               Some (([], []), 0))
+            else (wr, Some (([], []), 0))
+        | None => (wr, Some (([], []), 0))
+        end
+    | PRaw s =>
+        match assoc_z s w with
+        | None => ((w, None), Some (([], []), -9))
+        | Some (k, a, l, m) =>
+            match pvf (300 + k * 10) [a] with
+            | None => ((w, None), None)
+            | Some v => ((w, None), Some (v, 1))
+            end
+        end
     | PRead s what =>
         match assoc_z s w with
-        | None => (w, Some (([], []), -9))
+        | None => ((w, None), Some (([], []), -9))
         | Some (k, a, l, m) =>
-            if (what =? 5) || (what =? 6) || (what =? 8) then
-              match l with
-              | None => (w, Some (([], []), -2))
-              | Some t =>
-                  match assoc_z t w with
-                  | None => (w, Some (([], []), -9))
-                  | Some (k2, a2, _, _) =>
-                      match (if stale_ref && (what =? 8) then m else None) with
-                      | Some v => (w, Some (v, 0))
-                      | None =>
+            let r1 := if what =? 3 then Some s else None in
+            match (if use_memo what then assoc_z what m else None) with
+            | Some v => ((w, r1), Some (v, 0))
+            | None =>
+                if (what =? 5) || (what =? 6) || (what =? 8) then
+                  match l with
+                  | None => ((w, None), Some (([], []), -2))
+                  | Some t =>
+                      match assoc_z t w with
+                      | None => ((w, None), Some (([], []), -9))
+                      | Some (k2, a2, _, _) =>
                           match pvf (what * 100 + k * 10 + k2) [a; a2] with
-                          | None => (w, None)
-                          | Some v =>
-                              (if what =? 8 then pv_update s (fun x => let '(k', a', l', _) := x in (k', a', l', Some v)) w else w,
-                               Some (v, 0))
+                          | None => ((w, None), None)
+                          | Some v => ((memo_put s what v w, r1), Some (v, 0))
                           end
                       end
                   end
-              end
-            else
-              match pvf (what * 100 + k * 10) [a] with
-              | None => (w, None)
-              | Some v => (w, Some (v, 0))
-              end
+                else if (what =? 4) && (k =? 4) then
+                  (* trs2acr of a kepler object is made from its memoised trs conversion *)
+                  match (match (if hand then assoc_z 3 m else None) with
+                         | Some c => Some c
+                         | None => pvf 340 [a]
+                         end) with
+                  | None => ((w, None), None)
+                  | Some child =>
+                      match pvf 430 [child] with
+                      | None => ((w, None), None)
+                      | Some v =>
+                          let w1 := match assoc_z 3 m with Some _ => w | None => memo_put s 3 child w end in
+                          ((memo_put s 4 v w1, r1), Some (v, 0))
+                      end
+                  end
+                else
+                  match pvf (what * 100 + k * 10) [a] with
+                  | None => ((w, None), None)
+                  | Some v => ((memo_put s what v w, r1), Some (v, 0))
+                  end
+            end
         end
     end.
 
-  Fixpoint pvrun (w : list (Z * pvobj)) (ops : list pvop) : list (option (arr * Z)) :=
+  Fixpoint pvrun (w : pvworld) (ops : list pvop) : list (option (arr * Z)) :=
     match ops with
     | [] => []
     | o :: r => let (w1, x) := pvstep w o in x :: pvrun w1 r
@@ -805,9 +864,12 @@ Fixpoint pv_all_eqb (ps : list (option (arr * Z))) (ss : list (arr * Z)) : bool 
   | _, _ => false
   end.
 
-(* verdict: 0 = specification, 2 = machine with stale delta conversions, 1 = unexplained *)
+(* verdict: 0 = specification, 2 = stale delta conversions, 3 = memo entries handed out, 4 = both, 1 = unexplained *)
 Definition check_pv (c : pvtable * list pvop * list (arr * Z)) : Z :=
   let '(t, ops, seen) := c in
-  if pv_all_eqb (pvrun (pvf_of_table t) false [] ops) seen then 0
-  else if pv_all_eqb (pvrun (pvf_of_table t) true [] ops) seen then 2
+  let go := fun sr h => pv_all_eqb (pvrun (pvf_of_table t) sr h ([], None) ops) seen in
+  if go false false then 0
+  else if go true false then 2
+  else if go false true then 3
+  else if go true true then 4
   else 1.
